@@ -327,6 +327,13 @@ RESTART:
 		return tmconsensus.HandleProposedHeaderBadSignature
 	}
 
+	// The proposed header must extend the block we know was committed before its height.
+	// (The kernel leaves PrevBlockHash empty for the initial height.)
+	if ph.Header.Height != m.initialHeight &&
+		!bytes.Equal(ph.Header.PrevBlockHash, checkResp.PrevBlockHash) {
+		return tmconsensus.HandleProposedHeaderBadBlockHash
+	}
+
 	// Now, make sure that the proposed header's PrevCommitProof matches
 	// what we think the previous commit is supposed to be.
 	// The easiest thing to check first is the validator hash.
